@@ -1065,6 +1065,30 @@ def special_mutants(rng):
                 out.append({"defs": [{"kind": "op", "op": "query", "name": None, "vars": [], "dirs": [], "sels": [a, a2]}]})
     for _name, defs in variable_position_forms(rng):
         out.append({"defs": defs})
+    # fragments spread inside their own nested same-key fields (the fields-vs-fragment
+    # comparison of OverlappingFieldsCanBeMerged must be memoised to terminate)
+    def sp(n):
+        return {"k": "spread", "name": n, "dirs": []}
+
+    def slf(sels, alias=None, name="self"):
+        return {"k": "field", "alias": alias, "name": name, "args": [], "dirs": [], "sels": sels}
+
+    bodies = [
+        {"Cg": [slf([sp("Cg"), slf([sp("Cg")])])]},
+        {"Cg": [slf([slf([sp("Cg")]), sp("Cg")])]},
+        {"Cg": [slf([sp("Cg"), slf([sp("Cg"), _leaf("x", "id")]), _leaf("x", "name")])]},
+        {"Cg": [slf([sp("Cg"), slf([sp("Cg"), slf([sp("Cg")])])])]},
+        {"Ca": [slf([sp("Cb"), slf([sp("Ca")])])], "Cb": [slf([sp("Ca"), slf([sp("Cb")])])]},
+        {"Ca": [slf([sp("Cb"), slf([sp("Ca")], "k")], "k")], "Cb": [slf([sp("Ca"), slf([sp("Cb")], "k", "others")], "k", "others")]},
+        {"Cg": [slf([sp("Cg"), slf([sp("Cg")], None, "others")], None, "others")]},
+    ]
+    for body in bodies:
+        a = _anchor_field(rng)
+        a["sels"].append(sp(sorted(body)[0]))
+        defs = [{"kind": "op", "op": "query", "name": None, "vars": [], "dirs": [], "sels": [a]}]
+        defs += [{"kind": "frag", "name": n, "on": "AnchorObj", "dirs": [], "sels": b} for n, b in body.items()]
+        out.append({"defs": defs})
+        out.append({"defs": defs[::-1]})
     # transitive fragment use through >= 3 fragments, every definition order
     for var_defined in (True, False):
         a = _anchor_field(rng)
